@@ -8,6 +8,7 @@ import (
 	mrand "math/rand/v2"
 	"sort"
 	"strings"
+	"sync"
 	"testing"
 
 	"pgregory.net/rand"
@@ -47,7 +48,7 @@ type c05Row struct {
 	sf   float64
 	// accumulated over runs
 	sumX, sumV, maxS, minS float64
-	keptN                  int
+	keptN, certainDrops    int
 }
 
 type c05MetricSpec struct {
@@ -68,6 +69,7 @@ type c05Case struct {
 	Metrics []c05MetricSpec `json:"metrics"`
 	Rows    []*c05Row       `json:"rows"`
 	Budget  int64           `json:"budget"`
+	Tiny    bool            `json:"tiny_shares"`
 	Total   int64           `json:"total_size_without_fixed_budget_metrics"`
 	Opt     struct {
 		ModeAgent, KeepSingle, DisableNoSampleAgent, Budgets, Namespaces, Groups, Keys bool
@@ -102,6 +104,14 @@ func c05Gen(rnd *mrand.Rand) *c05Case {
 	case 1:
 		targetRows = 1 + rnd.IntN(5)
 	}
+	// tiny shares: a budget of a few bytes over nested levels, so that roundSampleFactor gives many groups budget 0
+	c.Tiny = rnd.IntN(4) == 0
+	if c.Tiny {
+		o.Namespaces, o.Groups = true, true
+		o.Keys = rnd.IntN(2) == 0
+		o.Budgets = rnd.IntN(6) == 0
+		targetRows = 2 + rnd.IntN(30)
+	}
 	mid := int32(100)
 	nns := 1 + rnd.IntN(3)
 	for ns := 1; ns <= nns; ns++ {
@@ -130,6 +140,9 @@ func c05Gen(rnd *mrand.Rand) *c05Case {
 		c.Metrics[rnd.IntN(len(c.Metrics))].Rows++
 	}
 	sizeMax := 1 + rnd.IntN(200)
+	if c.Tiny {
+		sizeMax = 1 + rnd.IntN(12)
+	}
 	for mi := range c.Metrics {
 		sp := &c.Metrics[mi]
 		if sp.Rows == 0 {
@@ -199,6 +212,9 @@ func c05Gen(rnd *mrand.Rand) *c05Case {
 	default:
 		c.Budget = 1 + rnd.Int64N(c.Total+1)
 	}
+	if c.Tiny {
+		c.Budget = 1 + rnd.Int64N(4)
+	}
 	return c
 }
 
@@ -225,6 +241,7 @@ func c05Eps(V, M, delta float64) float64 {
 }
 
 const (
+	c05NoProbability = 1e30 // factors at or above this are sentinels, not inverse probabilities
 	c05Delta1 = 1e-7
 	c05Delta2 = 1e-17
 )
@@ -251,7 +268,7 @@ func (s *c05Sim) witness(extra map[string]any) any {
 
 func (s *c05Sim) reset() {
 	for _, row := range s.c.Rows {
-		row.sumX, row.sumV, row.maxS, row.minS, row.keptN = 0, 0, 0, math.Inf(1), 0
+		row.sumX, row.sumV, row.maxS, row.minS, row.keptN, row.certainDrops = 0, 0, 0, math.Inf(1), 0, 0
 	}
 }
 
@@ -308,6 +325,16 @@ func (s *c05Sim) runs(n int, judgeRuns bool) {
 				continue
 			}
 			S := row.sf
+			if row.Size >= 1 && !row.kept && !(S < c05NoProbability) {
+				// A factor like MaxFloat32 (or Inf/NaN) is not the inverse of a keep probability anybody can realise:
+				// the row was dropped with certainty in this run.  It enters the expectation test as X = 0 without
+				// variance (and is a per-run violation of its own).
+				row.certainDrops++
+				if judgeRuns {
+					s.once("C05/discard-factor-is-not-a-keep-probability", fmt.Sprintf("row %d of size %d was discarded with factor %v: dropped with certainty although it was handed to the sampler with a size", i, row.Size, S), map[string]any{"row": i, "run": t})
+				}
+				continue
+			}
 			if row.kept {
 				row.sumX += S
 				row.keptN++
@@ -360,6 +387,13 @@ func TestVerifC05(t *testing.T) {
 	maxConfirmed := 2
 	r.SetCounter("stat.delta_stage1_x1e9", int64(c05Delta1*1e9))
 	r.SetCounter("stat.runs_per_configuration", int64(N))
+	var minDetMu sync.Mutex
+	minDet := math.Inf(1)
+	defer func() {
+		if !math.IsInf(minDet, 1) {
+			r.SetCounter("tiny.smallest_detectable_bias_x1000", int64(minDet*1000))
+		}
+	}()
 	r.Parallel(workers, "configs", func(w *verifkit.Worker) {
 		rnd := w.Rnd
 		confirmed := 0
@@ -476,6 +510,33 @@ func TestVerifC05(t *testing.T) {
 				w.CaseHash(nontrivial, verifkit.Hash(fmt.Sprintf("%d/%d/%d", w.Index, it, i)))
 				if row.Size >= 1 {
 					w.R.MaxCounter("stat.max_factor_seen_x1000", int64(math.Min(row.maxS, 1e12)*1000))
+				}
+			}
+			if c.Tiny {
+				w.Count("tiny.configs", 1)
+				for _, row := range c.Rows {
+					if row.Size < 1 || row.keptN == N || row.minS < 1 {
+						continue
+					}
+					// bias this row's test can still confirm: the stage-2 bound on 30·N runs with the variance seen here
+					det := c05Eps(30*row.sumV, math.Max(1, row.maxS-1), c05Delta2) / float64(30*N)
+					w.Count("tiny.sampled_rows_judged", 1)
+					switch {
+					case det < 0.1:
+						w.Count("tiny.rows_with_detectable_bias_below_0.1", 1)
+					case det < 0.3:
+						w.Count("tiny.rows_with_detectable_bias_0.1_to_0.3", 1)
+					case det < 1:
+						w.Count("tiny.rows_with_detectable_bias_0.3_to_1", 1)
+					default:
+						w.Count("tiny.rows_with_detectable_bias_above_1(no power for a total loss)", 1)
+					}
+					minDetMu.Lock()
+					if det < minDet {
+						minDet = det
+					}
+					minDetMu.Unlock()
+					w.R.MaxCounter("tiny.max_factor_seen_x1000", int64(row.maxS*1000))
 				}
 			}
 			w.Count("rows.kept_in_some_runs_only", int64(varied))
